@@ -128,6 +128,13 @@ def run_impl(c):
     out = {}
     try:
         args_before = (g.copy(), psd.copy())
+        if c.get('warm', (int(round(abs(float(np.sum(b)) * 1e6))) + n) % 2 == 1):
+            # the object has a history: the same methods were evaluated before on other inputs (no state may carry over)
+            g0 = -g[::-1].copy() + (np.max(np.abs(g)) if len(g) else 0.0)
+            p0 = psd[::-1].copy() + 1.0
+            pbm.getdXdtEuler(g0, c['nuc'] + 1.0, float(b[-1]), p0)
+            pbm.correctdXdtEuler(2 * c['dt'], g0, c['nuc'] + 1.0, float(b[-1]), p0)
+            pbm.getDTEuler(c['cur'], g0, 0, 0.9)
         d1 = pbm.getdXdtEuler(g, c['nuc'], c['rn'], psd)
         out['nf'] = pbm._netFlux.copy()
         out['dxdt'] = np.array(d1).copy()
@@ -136,6 +143,11 @@ def run_impl(c):
         out['dxdt2'] = np.array(d2).copy()
         out['args_mutated'] = not (np.array_equal(args_before[0], g) and np.array_equal(args_before[1], psd))
         out['dt'] = float(pbm.getDTEuler(c['cur'], g, c['d'], c['mr']))
+        # the same evaluation repeated on the same object, and the step limit asked for without a ratio (documented default 0.4)
+        d1b = pbm.getdXdtEuler(g, c['nuc'], c['rn'], psd)
+        out['repeat_same'] = bool(np.array_equal(np.array(d1b), out['dxdt']))
+        out['dxdt_repeat'] = np.array(d1b).copy()
+        out['dt_default'] = float(pbm.getDTEuler(c['cur'], g, c['d']))
         out['diss'] = int(pbm.getDissolutionIndex(c['md'], c['mi']))
         out['err'] = None
     except Exception as e:
@@ -293,6 +305,13 @@ def oracle(c, impl):
         exp_dt = c['mr'] * (b[1] - b[0]) / max(rel)
     if abs(impl['dt'] - exp_dt) > (0 if exact else 1e-12) * abs(exp_dt):
         v.append(('dt_formula', 'value', 'getDTEuler=%r, stated rule gives %r' % (impl['dt'], exp_dt)))
+    if 'dt_default' in impl:
+        exp_def = c['cur'] if (not rel or max(rel) == 0) else 0.4 * (b[1] - b[0]) / max(rel)
+        if abs(impl['dt_default'] - exp_def) > 1e-12 * abs(exp_def):
+            v.append(('dt_formula', 'default ratio after an explicit one', 'getDTEuler without a ratio (documented default 0.4) = %r after a call with ratio %r on the same object; stated rule gives %r' % (impl['dt_default'], c['mr'], exp_def)))
+    if impl.get('repeat_same') is False:
+        k = int(np.argmax(np.abs(np.array(impl['dxdt_repeat']) - np.array(impl['dxdt']))))
+        v.append(('sum_dXdt', 'repeated evaluation differs', 'getdXdtEuler evaluated twice on the same object with the same arguments: class %d is %r, then %r' % (k, float(impl['dxdt'][k]), float(impl['dxdt_repeat'][k]))))
     if impl.get('args_mutated'):
         v.append(('arguments_unchanged', 'mutation', 'growth or psd argument was modified in place'))
     return v
